@@ -1,8 +1,8 @@
 SPECIFICATION Spec
 CONSTANTS
   MaxN = 3
-  MaxV = 3
-  MaxW = 3
+  MaxV = 2
+  MaxW = 2
   A = 8
   Scales = {1, 2, 3}
   Swapped = FALSE
